@@ -1,6 +1,150 @@
-(** C35 — placeholder while the proofs are being built (replaced before delivery). *)
+(** C35 — Cardinality sketches merge correctly and stay within their error bound.
+    Property theorems only.  Model: Model/C35.v (mirror of pkg/estimator/hll/hll.go and
+    compressed.go).  [wf] is the invariant of every sketch reachable through NewPlus / Add /
+    Merge / Count / MarshalBinary+UnmarshalBinary ([C35_wf_reachable], [C35_wf_unfold] spells it
+    out); hashes are 64-bit ([x < two64]).  [regs s] = the dense registers after normalisation.
+
+    NOT a theorem (and not claimed): "the estimate is within the error bound" — it is a
+    probabilistic statement over the hash function; the correspondence driver measures the
+    observed relative error of the real Count() against 1.04/sqrt(m) and reports it in the
+    evidence (finding: biased for precisions other than 16).  [Count] itself is floating point
+    and is not computed in Coq: the theorems are about what it is a function of
+    ([count_obs]: precision, mode, sparse count / registers). *)
 From Verif Require Import Base.Prelude Model.C35.
-Theorem C35_merge_needs_equal_precision :
+From Verif Require Import Proofs.C35_bits Proofs.C35_codec Proofs.C35_regs Proofs.C35.
+Local Open Scope N_scope.
+
+(** ** merging = register-wise maximum, whatever the representations of the two sketches *)
+Theorem C35_merge_regs_max :
+  forall a b, wf a -> wf b -> k_p a = k_p b ->
+    exists c, k_merge a b = Some c /\ regs c = zip_max (regs a) (regs b).
+Proof. exact regs_merge_max. Qed.
+Print Assumptions C35_merge_regs_max.
+
+Theorem C35_merge_precision_mismatch_rejected :
   forall a b, k_p a <> k_p b -> k_merge a b = None.
-Proof. intros a b H. unfold k_merge. apply N.eqb_neq in H. rewrite H. reflexivity. Qed.
-Print Assumptions C35_merge_needs_equal_precision.
+Proof. exact merge_precision_mismatch. Qed.
+Print Assumptions C35_merge_precision_mismatch_rejected.
+
+(** ** commutative, associative, idempotent — ON REGISTERS (hence on every later merge and on
+    every dense estimate).  Idempotence of the ESTIMATE across representations is not claimed:
+    h.Merge(h) turns a sparse sketch dense and Count() then switches from linear counting at
+    p'=25 to the dense estimator (measured by the driver, see checks/C35.json). *)
+Theorem C35_merge_commutative_on_registers :
+  forall a b, wf a -> wf b -> k_p a = k_p b ->
+    exists c1 c2, k_merge a b = Some c1 /\ k_merge b a = Some c2 /\ regs c1 = regs c2.
+Proof. exact merge_comm_regs. Qed.
+Print Assumptions C35_merge_commutative_on_registers.
+
+Theorem C35_merge_associative_on_registers :
+  forall a b c, wf a -> wf b -> wf c -> k_p a = k_p b -> k_p b = k_p c ->
+    exists ab abc bc abc',
+      k_merge a b = Some ab /\ k_merge ab c = Some abc /\
+      k_merge b c = Some bc /\ k_merge a bc = Some abc' /\ regs abc = regs abc'.
+Proof. exact merge_assoc_regs. Qed.
+Print Assumptions C35_merge_associative_on_registers.
+
+Theorem C35_merge_idempotent_on_registers :
+  forall a, wf a -> exists c, k_merge a a = Some c /\ regs c = regs a.
+Proof. exact merge_idem_regs. Qed.
+Print Assumptions C35_merge_idempotent_on_registers.
+
+(** ** a sketch is the sketch of the multiset added to it: whatever mixture of sparse phases,
+    tmp-set merges and the switch to the dense representation happened on the way, the
+    registers are, per register, the maximum of [dense_rho] over the hashes with that
+    [dense_index] ([spec_regs]: the dense formulas only). *)
+Theorem C35_regs_of_list :
+  forall p s0 xs, k_new p = Some s0 -> Forall (fun x => x < two64) xs ->
+    regs (fold_left k_add xs s0) = spec_regs p xs.
+Proof. exact regs_of_list. Qed.
+Print Assumptions C35_regs_of_list.
+
+(** the crux: the 32-bit sparse encoding of a hash decodes to exactly the dense (index, rho),
+    for every precision 4..18 and every 64-bit hash *)
+Theorem C35_sparse_encoding_lossless :
+  forall p x, 4 <= p -> p <= 18 -> x < two64 ->
+    decode_hash p (encode_hash p x) = (dense_index p x, dense_rho p x).
+Proof. exact decode_encode. Qed.
+Print Assumptions C35_sparse_encoding_lossless.
+
+(** ** a merged sketch is the sketch of the union *)
+Theorem C35_regs_of_union :
+  forall p s0 xs ys, k_new p = Some s0 ->
+    Forall (fun x => x < two64) xs -> Forall (fun x => x < two64) ys ->
+    exists c, k_merge (fold_left k_add xs s0) (fold_left k_add ys s0) = Some c
+              /\ regs c = spec_regs p (xs ++ ys)
+              /\ regs c = regs (fold_left k_add (xs ++ ys) s0).
+Proof. exact regs_of_union. Qed.
+Print Assumptions C35_regs_of_union.
+
+(** ** MarshalBinary then UnmarshalBinary: the sketch comes back as the source is after its own
+    mergeSparse — same precision, mode, registers and the same [count_obs], i.e. everything
+    Count() is a function of.  (The 4-byte length fields cannot wrap on reachable sketches: the
+    size bound is part of [wf] and proved to be preserved.) *)
+Theorem C35_marshal_roundtrip :
+  forall s, wf s -> k_unmarshal (k_marshal s) = Some (count_touch s).
+Proof. exact marshal_roundtrip. Qed.
+Print Assumptions C35_marshal_roundtrip.
+
+Theorem C35_marshal_roundtrip_preserves_estimate_inputs :
+  forall s, wf s ->
+    exists s', k_unmarshal (k_marshal s) = Some s' /\ wf s' /\
+               k_p s' = k_p s /\ k_sparse s' = k_sparse s /\ regs s' = regs s /\
+               count_obs s' = count_obs s.
+Proof. exact marshal_roundtrip_obs. Qed.
+Print Assumptions C35_marshal_roundtrip_preserves_estimate_inputs.
+
+(** the compressed list: decoding the delta-varint bytes gives back the appended keys *)
+Theorem C35_compressed_list_roundtrip :
+  forall l, ascending 0 l -> cl_keys (cl_of_keys l) = l.
+Proof. exact cl_keys_of_keys. Qed.
+Print Assumptions C35_compressed_list_roundtrip.
+
+(** ** reachability of the invariant *)
+Theorem C35_wf_reachable :
+  forall p s0 xs, k_new p = Some s0 -> Forall (fun x => x < two64) xs -> wf (fold_left k_add xs s0).
+Proof. exact wf_reachable. Qed.
+Print Assumptions C35_wf_reachable.
+
+Theorem C35_wf_preserved :
+  (forall a b c, wf a -> wf b -> k_merge a b = Some c -> wf c)
+  /\ (forall s, wf s -> wf (count_touch s))
+  /\ (forall s x, wf s -> x < two64 -> wf (k_add s x)).
+Proof. split; [exact wf_merge|]. split; [exact wf_touch|exact wf_add]. Qed.
+Print Assumptions C35_wf_preserved.
+
+Theorem C35_wf_unfold :
+  forall s, wf s <->
+    4 <= k_p s /\ k_p s <= 18 /\
+    if k_sparse s then
+      ascending 0 (k_tmp s) /\
+      (exists l, ascending 0 l /\ k_cl s = cl_of_keys l) /\ k_dense s = [] /\
+      cl_count (k_cl s) + N.of_nat (length (k_tmp s)) <= 2 * 2 ^ k_p s
+    else length (k_dense s) = N.to_nat (2 ^ k_p s) /\ k_tmp s = [] /\ k_cl s = cl_empty.
+Proof. exact wf_unfold. Qed.
+Print Assumptions C35_wf_unfold.
+
+(** ** every program over sketch variables (NewPlus / Add / bulk Add / Merge incl. self-merge
+    and mismatched precisions / Clone / Marshal+Unmarshal / Count / state dump) passes the
+    oracle of the correspondence check: every state dump shows the registers of the multiset of
+    hashes that flowed into that variable, Merge fails exactly on a precision mismatch, NewPlus
+    exactly outside 4..18. *)
+Theorem C35_history_oracle :
+  forall ops, Forall hashes_ok ops -> o_check (repeat None nvars) ops (k_run sregs0 ops) = true.
+Proof. exact history_oracle. Qed.
+Print Assumptions C35_history_oracle.
+
+(** Non-vacuity: a p=4 sketch goes dense by Add alone; merging it with a sparse one gives the
+    union's registers; the round trip of a sparse sketch is the identity. *)
+Example C35_nonvacuous :
+  match k_new 4 with
+  | Some s0 =>
+      let a := fold_left k_add (stream 40 9) s0 in
+      let b := fold_left k_add [0; 9223372036854775808; 1311768467294899695] s0 in
+      k_sparse a = false /\ k_sparse b = true
+      /\ (match k_merge b a with Some c => regs c = spec_regs 4 ([0; 9223372036854775808; 1311768467294899695] ++ stream 40 9) | None => False end)
+      /\ k_unmarshal (k_marshal b) = Some (count_touch b)
+      /\ nonzero (regs b) 0 = [(0, 61); (1, 3); (8, 61)]
+  | None => False
+  end.
+Proof. vm_compute. repeat split; reflexivity. Qed.
